@@ -89,9 +89,21 @@ pub fn universe(nkeys: usize, nseqs: usize) -> Vec<VEntry> {
 			let value = if kind == 0 || kind == 1 {
 				vec![]
 			} else {
-				match i % 3 {
+				match i % 4 {
 					0 => vec![],
 					1 => b"\x00\x01v".to_vec(),
+					3 => {
+						// high-entropy bytes: a block holding them does not shrink under compression
+						let mut x: u64 = 0x9e37_79b9_7f4a_7c15 ^ (i as u64).wrapping_mul(0xff51_afd7_ed55_8ccd);
+						(0..700)
+							.map(|_| {
+								x ^= x << 13;
+								x ^= x >> 7;
+								x ^= x << 17;
+								(x >> 24) as u8
+							})
+							.collect()
+					}
 					_ => {
 						// pointer-shaped: meta=BIT_VALUE_POINTER, version, 25-byte pointer
 						let mut v = vec![1u8, 1, 1];
